@@ -9,7 +9,7 @@
    NOT proved: C11_full_statement (Faithful = Reference outside the known
    classes); it is evaluated per generated case in Corr/C11.v.  Also not proved:
    invariance under permutation of the relationship list, WHERE/projection
-   commutation, relationship uniqueness of every Reference row. *)
+   commutation. *)
 From Coq Require Import Permutation.
 From NDB Require Import Query.Clauses Query.Clauses_proofs Query.Known.
 
@@ -45,16 +45,17 @@ Theorem C11_crosspattern_refuted : C11_crosspattern_refuted_statement.
 Proof. split; vm_compute; reflexivity. Qed.
 Print Assumptions C11_crosspattern_refuted.
 
-(* K-C11-distinct-window: UNWIND [1,1,1,2] AS x RETURN DISTINCT x LIMIT 2 gives [1] in the engine, [1;2] in openCypher *)
+(* repaired by b18a8dc (was K-C11-distinct-window): UNWIND [1,1,1,2] AS x RETURN DISTINCT x LIMIT 2 gave [1]
+   while DISTINCT was planned after LIMIT; both semantics now give [1;2], and they agree on every projection *)
 Definition q_window : query :=
   QSingle [CUnwind (ELit (VList [VInt 1; VInt 1; VInt 1; VInt 2])) 0;
            CReturn (mk_proj [(1%N, EVar 0)] true [] None (Some 2%nat))].
-Definition C11_distinct_window_refuted_statement : Prop :=
-  result_of Faithful wE q_window = Ok [[(1%N, VInt 1)]] /\
-  result_of Reference wE q_window = Ok [[(1%N, VInt 1)]; [(1%N, VInt 2)]].
-Theorem C11_distinct_window_refuted : C11_distinct_window_refuted_statement.
-Proof. split; vm_compute; reflexivity. Qed.
-Print Assumptions C11_distinct_window_refuted.
+Definition C11_projection_agrees_statement : Prop :=
+  (forall E p s, run_proj Faithful E p s = run_proj Reference E p s) /\
+  result_of Faithful wE q_window = Ok [[(1%N, VInt 1)]; [(1%N, VInt 2)]].
+Theorem C11_projection_agrees : C11_projection_agrees_statement.
+Proof. split; [reflexivity | vm_compute; reflexivity]. Qed.
+Print Assumptions C11_projection_agrees.
 
 (* K-C11-parallel: MATCH (a)-[r1]->(b)<-[r2]-(c) over the two parallel relationships: 4 rows vs 2 *)
 Definition q_parallel : query :=
@@ -64,3 +65,21 @@ Definition C11_parallel_refuted_statement : Prop :=
 Theorem C11_parallel_refuted : C11_parallel_refuted_statement.
 Proof. split; vm_compute; reflexivity. Qed.
 Print Assumptions C11_parallel_refuted.
+
+(* the Reference is a trustworthy oracle for relationship uniqueness: every match it returns for one
+   MATCH clause - all comma-separated patterns together - uses pairwise distinct relationships of the
+   graph (positions in g_rels, each holding the recorded key), exactly one per hop *)
+Definition C11_reference_unique_statement : Prop :=
+  forall g ps r m, In m (match_pms Reference g ps r) ->
+    NoDup (map fst (snd m)) /\ Forall (valid_use g) (snd m) /\ length (snd m) = total_hops ps.
+Theorem C11_reference_unique : C11_reference_unique_statement.
+Proof. exact reference_match_unique. Qed.
+Print Assumptions C11_reference_unique.
+
+(* non-vacuity: on the witness graph the two comma-separated patterns have exactly two Reference matches
+   (r1, r2 = the two parallel relationships in either order), the engine's semantics has five *)
+Example C11_reference_unique_nonvacuous :
+  let ps := [mk_pattern (np 0) [(mk_rpat 1 [] DOut, np 2)]; mk_pattern (np 0) [(mk_rpat 3 [] DOut, np 2)]] in
+  map (fun m => map fst (snd m)) (match_pms Reference wg ps []) = [[1; 0]; [0; 1]]%nat /\
+  length (match_pms Faithful wg ps []) = 5%nat.
+Proof. split; vm_compute; reflexivity. Qed.
